@@ -98,6 +98,11 @@ type Sim struct {
 	FaultKinds    []Fault
 	faultsLeft    int
 	SwitchBias    int // permille chance to switch task when the current one is runnable (default 500)
+	// StallKind/StallPermille: a chosen operation of this kind is put back
+	// with the given probability when something else is runnable ("stall"
+	// fault: e.g. the Raft state machine lagging several entries behind).
+	StallKind     string
+	StallPermille int
 
 	Faults map[string]int // fired, by kind
 	Probes map[string]int
@@ -427,6 +432,18 @@ func (s *Sim) Step() bool {
 		idx = 0
 	}
 	p := P[idx]
+	if s.StallKind != "" && p.kind == s.StallKind && len(P) > 1 && s.Tape.Chance(s.StallPermille) {
+		var others []*parked
+		for _, q := range P {
+			if q.kind != s.StallKind {
+				others = append(others, q)
+			}
+		}
+		if len(others) > 0 {
+			p = others[s.Tape.Pick(len(others))]
+			s.Faults["stall"]++
+		}
+	}
 	f := s.decideFault(p)
 	s.removeParked(p)
 	s.mu.Lock()
